@@ -82,10 +82,7 @@ class Model:
             raise RuntimeError('model runner not built: ' + DRIVER)
         self.calls = 0
 
-    def run_many(self, cases, timeout=600):
-        """cases: list of python objects (each a list with a tag first). Returns list of decoded results."""
-        if not cases:
-            return []
+    def _run_chunk(self, cases, timeout):
         inp = '\n'.join(enc(c) for c in cases) + '\n'
         p = subprocess.run(['bash', '-c', 'ulimit -s unlimited 2>/dev/null; exec "%s"' % DRIVER], input=inp,
                            capture_output=True, text=True, timeout=timeout)
@@ -102,6 +99,24 @@ class Model:
                 out.append(['error', l])
             else:
                 out.append(dec(l))
+        return out
+
+    def run_many(self, cases, timeout=1800):
+        """cases: list of python objects (each a list with a tag first). Returns list of decoded results.
+        The extracted runner is single-threaded: larger batches are cut into interleaved chunks that run side by side."""
+        if not cases:
+            return []
+        k = min(12, max(1, len(cases) // 4))
+        if k == 1:
+            out = self._run_chunk(cases, timeout)
+        else:
+            from concurrent.futures import ThreadPoolExecutor
+            chunks = [cases[i::k] for i in range(k)]
+            with ThreadPoolExecutor(max_workers=k) as ex:
+                parts = list(ex.map(lambda ch: self._run_chunk(ch, timeout), chunks))
+            out = [None] * len(cases)
+            for i, part in enumerate(parts):
+                out[i::k] = part
         self.calls += len(cases)
         return out
 
